@@ -8,7 +8,7 @@ from mirsym.engine import Agg, PyVec, Str, Ref, Opaque, Cell_, Unsupported, unbo
 from props.c06 import Ctx
 
 CRATES = ('compiler', 'common_defs', 'diagnostics', 'parser')
-VALUES = ('call', 'tuple', 'array', 'nested-tuple', 'int')
+VALUES = ('call', 'tuple', 'array', 'nested-tuple', 'int', 'match-wild', 'match-var')
 STMTS = ('let-wild', 'let-var', 'expr', 'let-tuple', 'let-tuple-wild')
 
 def core_trace(c, e):
@@ -38,7 +38,8 @@ def core_trace(c, e):
     return T(e)
 
 def stmt_src(kind, val, i):
-    v = {'call': 'f%d()' % i, 'tuple': '(f%d(), g%d())' % (i, i), 'array': '[f%d(), g%d()]' % (i, i), 'nested-tuple': '((f%d(), 1), g%d())' % (i, i), 'int': '7'}[val]
+    if val in ('match-wild', 'match-var'): v = 'match f%d() { %s => 7 }' % (i, '_' if val == 'match-wild' else 'w%d' % i)
+    else: v = {'call': 'f%d()' % i, 'tuple': '(f%d(), g%d())' % (i, i), 'array': '[f%d(), g%d()]' % (i, i), 'nested-tuple': '((f%d(), 1), g%d())' % (i, i), 'int': '7'}[val]
     if kind in ('let-tuple', 'let-tuple-wild') and val in ('tuple', 'nested-tuple'): return 'let (a%d, %s) = %s;' % (i, 'b%d' % i if kind == 'let-tuple' else '_', v)
     if kind in ('let-tuple', 'let-tuple-wild'): kind = 'let-var'
     return {'let-wild': 'let _ = %s;' % v, 'let-var': 'let x%d = %s;' % (i, v), 'expr': '%s;' % v}[kind]
@@ -55,6 +56,7 @@ def replay(stmts):
     want = []
     for i, (k, v) in enumerate(stmts):
         if v != 'int': want.append('f%d(' % i)
+        if v in ('match-wild', 'match-var'): continue
         if v in ('tuple', 'array', 'nested-tuple'): want.append('g%d(' % i)
     missing = [w for w in want if w not in body]
     pos = [body.find(w) for w in want if w in body]
@@ -73,6 +75,12 @@ def ob_core_block_effects(r, tier, seed, nstmts=2):
     def value(v, i):
         if v == 'call': return call('f%d' % i), i32, ['f%d' % i]
         if v == 'int': return c.texpr('EPrim', value=c.prim('Int32', 7), ty=i32), i32, []
+        if v in ('match-wild', 'match-var'):
+            # match f() { _ => 7 } / { w => 7 }: the scrutinee is evaluated (once) although no arm inspects it
+            ARM = tt.find_adt(['tast', 'Arm'], 'compiler')
+            pat = c.tpat('PWild', ty=i32) if v == 'match-wild' else c.tpat('PVar', name=mkstr('w%d' % i), ty=i32, astptr=ms.NONE())
+            arm = Agg(ARM.key, 0, [{'pat': pat, 'body': c.texpr('EPrim', value=c.prim('Int32', 7), ty=i32)}[f[0]] for f in ARM.variants[0].fields])
+            return c.texpr('EMatch', expr=mkbox(call('f%d' % i)), arms=PyVec([arm]), ty=i32, astptr=ms.NONE()), i32, ['f%d' % i]
         if v == 'tuple': t = c.tytuple([i32, i32]); return c.texpr('ETuple', items=PyVec([call('f%d' % i), call('g%d' % i)]), ty=t), t, ['f%d' % i, 'g%d' % i]
         if v == 'array': t = c.ty('TArray', 2, mkbox(i32)); return c.texpr('EArray', items=PyVec([call('f%d' % i), call('g%d' % i)]), ty=t), t, ['f%d' % i, 'g%d' % i]
         ti = c.tytuple([i32, i32]); t = c.tytuple([ti, i32])
